@@ -123,6 +123,13 @@ def build(ctx):
     t, path = concolic_trace(g, 'tr_Delta', [('d', 'V6')], lambda d: base.trnorm(base.delta2tr(d)),
                              [np.array([0.1, -0.2, 0.3, 0.02, -0.03, 0.05])], sampler=lambda rng: [s_delta(rng)])
     g.paths['pc_Delta'] = ([('d', 'V6')], path)
+    # ---- one-parameter form base.trexp(S, theta) for a unit twist (|w| = 1): the curve theta -> exp(theta [S])
+    w_ = np.array([0.6, 0.0, 0.8])
+    t, path = concolic_trace(g, 'tr_trexp_unit', [('s', 'V6'), ('th', 'S')], lambda s, th: base.trexp(s, th),
+                             [np.r_[0.3, -0.2, 0.5, w_], np.array(0.7)], tol=1e-9,
+                             sampler=lambda rng: [np.r_[rng.normal(size=3) * log_uniform(rng, 1e-3, 1e2), rand_unit(rng)],
+                                                  float(rng.uniform(-math.pi, math.pi))])
+    g.paths['pc_trexp_unit'] = ([('s', 'V6'), ('th', 'S')], path)
     # ---- the other twist kinds of base.trexp: prismatic (w literally zero) and zero twist
     t, path = concolic_trace(g, 'tr_trexp6_pris', [('v', 'V3')], lambda v: base.trexp(np.r_[v, 0, 0, 0]),
                              [np.array([0.1, -0.2, 0.3])], sampler=lambda rng: [rng.normal(size=3) * log_uniform(rng, 1e-6, 1e3)])
@@ -151,7 +158,7 @@ def gen_text(ctx, g):
     txt = [g.coq_text()]
     # path conditions of the concolic traces: conjunction of the recorded comparisons, as a boolean over the ops record
     for name, (inputs, path) in getattr(g, 'paths', {}).items():
-        binders = " ".join(f"({an} : {sh} T)" for an, sh in inputs)
+        binders = " ".join(f"({an} : {'T' if sh == 'S' else sh + ' T'})" for an, sh in inputs)
         lets = "".join(f"  let '{input_pattern(an, sh)} := {an} in\n" for an, sh in inputs if sh != 'S')
         atoms = []
         for rel, truth in path:
@@ -769,7 +776,7 @@ def run(ctx):
         with ctx.timed('oracle'):
             oracle(ctx)
         return
-    files = ['C13_maps.v', 'C13_adjoint.v', 'C13_delta.v', 'C13_log.v', 'C13_kinds.v', 'C13_Delta.v']
+    files = ['C13_maps.v', 'C13_adjoint.v', 'C13_delta.v', 'C13_log.v', 'C13_kinds.v', 'C13_ode.v', 'C13_Delta.v']
     if ctx.thorough:
         files.append('C13_extra.v')
     for f in files:
